@@ -1,6 +1,7 @@
 (* C03 for the BDF model, honest status: Success is reported only when the abscissa has reached xend.
    Real-number semantics; ANY right-hand side, Jacobian, callback, tolerances, parameters; direction = +-1. *)
-Require Import List ZArith Bool Lia Reals Lra.
+Require Import List ZArith Bool Lia Reals Lra QArith Qreals.
+Require Import IVP.gen.Inline.
 Require Import IVP.model.Lit IVP.model.Ops IVP.model.Vec IVP.model.Common IVP.model.LU IVP.model.Bdf IVP.model.RealOps.
 Import ListNotations.
 Local Open Scope R_scope.
@@ -33,6 +34,9 @@ Section Status.
   Ltac facts :=
     repeat match goal with
            | E : (_ && _) = true |- _ => apply andb_true_iff in E; destruct E
+           | E : (_ || _) = true |- _ => apply orb_true_iff in E; destruct E
+           | E : (_ || _) = false |- _ => apply orb_false_iff in E; destruct E
+           | E : negb _ = true |- _ => apply negb_true_iff in E
            | E : ltb Rops _ _ = true |- _ => cbn [ltb Rops] in E; apply Rltb_true in E
            | E : ltb Rops _ _ = false |- _ => cbn [ltb Rops] in E; apply Rltb_false in E
            | E : leb Rops _ _ = true |- _ => cbn [leb Rops] in E; apply Rleb_true in E
@@ -46,6 +50,13 @@ Section Status.
     repeat hd.
     all: cbv beta iota delta [out_ok r_status r_x]; try exact I; intros E; try discriminate E.
     all: facts; cbn [add sub mul abs zero Rops] in *.
+    (* `beside` never holds over the reals: rest <> 0 and x_new + rest / 10 = x_new *)
+    all: try (match goal with
+              | Hb : eqb Rops ?r 0 = false, He : (?a + lit Rops L0_1 * ?r)%R = ?a |- _ =>
+                  exfalso; cbn [eqb Rops] in Hb;
+                  assert (Hr : r = 0%R) by (cbn [lit Rops lit_q L0_1] in He; unfold Q2R in He; cbn in He; lra);
+                  rewrite Hr in Hb; unfold Reqb in Hb; destruct (Req_EM_T 0 0) as [_|ne]; [discriminate Hb|apply ne; reflexivity]
+              end).
     all: try (match goal with Ha : Rabs (xend - ?x) = 0 |- ?x = xend =>
                 destruct (Req_dec x xend) as [e|ne]; [exact e|];
                 exfalso; apply (Rabs_no_R0 (xend - x)); [lra|exact Ha] end).
